@@ -314,7 +314,57 @@ func main() {
 			}
 			w.Add(VL(VS("pack"), VN(int64(lim)), VB(ids), tb.gzVal(), tb.urlVal(), VL(tb.js...), g.Val(), VL(lines...), VN(clean)), VL(packObs, unpObs))
 			distinct.Add(human)
-		case mode < 15:
+		case mode >= 13 && mode < 15: // one frame arriving in chunks while the same instance sends
+			st.Count("mode:duplex")
+			socket.SetMessageSizeLimit(c05lib.BigLim)
+			var g *c05lib.GenMsg
+			var ids, out []byte
+			for try := 0; try < 50; try++ {
+				g, ids = genHTTP(r, st)
+				var res string
+				out, res, _, _ = c05lib.PackOne(pf, g, ids)
+				if res == "ok" && inLimits(g, ids) {
+					break
+				}
+				out = nil
+			}
+			if out == nil {
+				break
+			}
+			first, _, _ := headerLines(out)
+			if sp := strings.SplitN(first, " ", 3); len(sp) == 3 && sp[0] == "POST" {
+				tb.url(sp[1])
+			}
+			body := g.Body
+			if len(ids) == 1 {
+				body = tb.gzip(body)
+			}
+			js := tb.json(g.Status())
+			if len(ids) == 1 {
+				tb.unjson(js)
+				tb.gzip(js)
+			}
+			fr, end, _ := unpackAll([][]byte{append([]byte(nil), out...)})
+			alone := "sfail"
+			if len(fr) == 1 && end == "sok" {
+				alone = fr[0]
+			}
+			og, oids := genHTTP(r, st)
+			busy, ok := c05lib.Duplex(pf, c05lib.Cuts(r, out), false,
+				func(pr socket.Proto) string { return c05lib.UnpackOne(pr).Val },
+				func(pr socket.Proto) {
+					defer func() { recover() }()
+					pr.Pack(og.NewMessage(oids))
+				})
+			human := c05lib.Clip(fmt.Sprintf("http duplex bytes=%x", out))
+			c05lib.DuplexOracle(st, i, alone, busy, ok, human)
+			obs := VL(VL(), "sfail")
+			if ok && busy != "sfail" {
+				obs = VL(VL(busy), "sok")
+			}
+			w.Add(VL(VS("stream"), VN(c05lib.BigLim), tb.gzVal(), tb.urlVal(), VL(tb.js...), VB(out)), obs)
+			distinct.Add(human)
+		case mode < 13:
 			st.Count("mode:stream")
 			socket.SetMessageSizeLimit(c05lib.BigLim)
 			k := 1 + r.Intn(5)
